@@ -21,12 +21,13 @@ _f = ["deduplication::chunking::Chunker::new", "Chunker::next", "Chunker::next_b
 _st = ["std::env::var", "std::env::set_var", "gearhash::Hasher::next_match", "merklehash::compute_data_hash"]
 _so = ["std::env::var", "std::env::set_var", "gearhash::Hasher::next_match -> recording oracle", "merklehash::compute_data_hash"]
 _cov = ["forced cut at the maximum", "content-defined cut"]
+_nat = lambda m, f, p: replay_ref(m, f, p)
 KANI = [
     H("hk_dedup", "c04::oracle_min128_one_call_300", "one next() on 300 bytes: skip of min-64-1 bytes, scan clamp at max, hash starts at 0, cut where the hash says or at max, final flush, bytes preserved",
-      unwind=4, flags=FAST, covers=_cov, functions=_f, stubs=_so, bounds="300 symbolic bytes, any oracle answer, is_final symbolic", timeout=1200, mem_gb=20),
+      unwind=4, flags=FAST, covers=_cov, functions=_f, stubs=_so, bounds="300 symbolic bytes, any oracle answer, is_final symbolic", timeout=1200, mem_gb=20, playback=False, native=_nat),
     H("hk_dedup", "c04::oracle_min128_skip_split_10_20_100", "three calls 10+20+100 bytes: the unhashed skip is resumed across calls, scan offsets/hash state carried, same cut rule",
       unwind=4, flags=FAST, covers=["content-defined cut", "chunk continues across calls"], functions=_f, stubs=_so,
-      bounds="call partition 10/20/100 bytes, any oracle answers", timeout=1200, mem_gb=20),
+      bounds="call partition 10/20/100 bytes, any oracle answers", timeout=1200, mem_gb=20, playback=False, native=_nat),
     H("hk_dedup", "c04::first_chunk_min16_len24", "real gear hash: first chunk of next(D,f) equals the reference rule (24 hashed bytes)", unwind=30, flags=FAST, tier="thorough",
       covers=["content-defined cut inside the data"], functions=_f, stubs=_st, bounds="24 symbolic bytes through the real gear table", timeout=5400, mem_gb=24),
 ]
